@@ -33,6 +33,8 @@ static int mode, nitems_total;
 static unsigned long long seed;
 static int any_fail_done, turn;
 static pthread_mutex_t omtx = PTHREAD_MUTEX_INITIALIZER;
+static pthread_mutex_t tmtx = PTHREAD_MUTEX_INITIALIZER;
+static pthread_cond_t tcond = PTHREAD_COND_INITIALIZER;
 static char oracle[128];
 static char cur_case[4096];
 
@@ -76,12 +78,10 @@ static int cb(void *user, void *work)
 	}
 	if (mode == 1) {
 		/* wait until every later item is done: reverse completion order */
-		for (;;) {
-			int t = __atomic_load_n(&turn, __ATOMIC_SEQ_CST);
-			if (t == it->id)
-				break;
-			sched_yield();
-		}
+		pthread_mutex_lock(&tmtx);
+		while (turn != it->id)
+			pthread_cond_wait(&tcond, &tmtx);
+		pthread_mutex_unlock(&tmtx);
 	} else {
 		switch (r % 4) {
 		case 0: break;
@@ -98,8 +98,12 @@ static int cb(void *user, void *work)
 		__atomic_store_n(&any_fail_done, 1, __ATOMIC_SEQ_CST);
 	if (c >= 0)
 		__atomic_store_n(&ctx_busy[c], 0, __ATOMIC_SEQ_CST);
-	if (mode == 1)
-		__atomic_store_n(&turn, it->id - 1, __ATOMIC_SEQ_CST);
+	if (mode == 1) {
+		pthread_mutex_lock(&tmtx);
+		turn = it->id - 1;
+		pthread_cond_broadcast(&tcond);
+		pthread_mutex_unlock(&tmtx);
+	}
 	return st;
 }
 
@@ -151,7 +155,7 @@ int main(void)
 		oracle[0] = '\0';
 		out[0] = '\0';
 
-		alarm(12);
+		alarm(8);
 		pool = thread_pool_create((size_t)nw, cb);
 		if (pool == NULL) {
 			printf("%s | CREATE-FAILED |\n", cur_case);
